@@ -161,6 +161,15 @@ func pathInts(p []uint16, op int) []int {
 func step(newSys func() Sys, path []uint16, op int) (canon string, enabled bool, c *Ctx) {
 	var s Sys
 	bfsJournalPath = pathInts(path, op)
+	defer func() {
+		// a Sys holding goroutines / timers of the real code releases them here (millions of instances are built)
+		if cl, ok := s.(interface{ Close() }); ok && s != nil {
+			func() {
+				defer func() { recover() }()
+				cl.Close()
+			}()
+		}
+	}()
 	c = runOne(func(c *Ctx) {
 		s = newSys()
 		c.InPrefix = true // these operations were checked when their state was first reached: a Sys may skip expensive oracles
